@@ -434,7 +434,7 @@ def rule_r4(chk):
 def rule_r5(chk, rid="C07-R5"):
     chk.rule(rid, "the targets of exogenized points are the USER'S inputs: Inlay.simulate snapshots the variant's data (a copy) before the "
              "first call that may write into it (simulate_initial_guess, simulate_frame, write-back of frames), hands that snapshot to "
-             "every frame as input_data_array, and never rebinds it inside the frame loop", floor=3, shape_independent=True)
+             "every frame as input_data_array, and never rebinds it inside the frame loop", floor=1, shape_independent=True)
     sm = chk.repo.mod("irispie.simultaneous._simulate")
     f = sm.func("Inlay.simulate")
     chk.saw(sm, "Inlay.simulate")
@@ -445,7 +445,7 @@ def rule_r5(chk, rid="C07-R5"):
     lp, conts = loops[0]
     dsv = next((v for c, v in conts.items() if "slate" in c or "slate" in v), None)
     snaps = [n for n in ast.walk(lp) if isinstance(n, ast.Assign) and isinstance(n.targets[0], ast.Name) and isinstance(n.value, ast.Call)
-             and squash(n.value).startswith(f"{dsv}.get_data_variant(")]
+             and ".get_data_variant(" in squash(n.value)]
     passed = [k.value for c in ast.walk(lp) if isinstance(c, ast.Call) for k in c.keywords if k.arg == "input_data_array"]
     if not snaps or not passed or dsv is None:
         chk.undecided(rid, "simultaneous._simulate.Inlay.simulate[input snapshot]", "snapshot of the variant's data not recognised", sm.loc(lp))
